@@ -340,6 +340,10 @@ def run_check(prop: str, mod, tier: str, seed: int, replay_path: str | None):
     violations = []  # (replay_path, suffix)
     known_lines = {}
     try:
+        if hasattr(mod, "prepare"):
+            # e.g. regenerate lean/JoblibModel/Generated/Tables.lean from the live VERIF_REPO objects, so that the
+            # table-level theorems are re-proved against what the code says now
+            mod.prepare(ctx)
         proof = audit(prop, list(getattr(mod, "REQUIRED_THEOREMS", [])))
         try:
             res: Result = mod.run(ctx)
